@@ -41,7 +41,7 @@ def ref_relative(d: Any, var: tuple) -> Any:
         if fl is not None:
             root, segs = fl
             if root[1] == var[1] and tuple(root[2]) == tuple(var[2]):
-                out: Any = ("Identifier", segs[0], ())
+                out: Any = ("Identifier", segs[0], ("ns",))
                 for s in segs[1:]:
                     out = ("Attribute", out, s)
                 return out
